@@ -88,6 +88,27 @@ def work(args):
         j = rng.randrange(2 * n)
         e[j] ^= 1
         add('stabilizer_times_unit', e)
+    # (i) the batch (2-D) path of logical_errors must agree row by row with the single-error path
+    E = np.array([vec(n, o['x'], o['z']) for o in out['cases']], dtype='uint8')
+    try:
+        B = np.asarray(code.logical_errors(E))
+        out['batch_le'] = [[int(b) for b in row] for row in B.reshape(len(out['cases']), -1)]
+    except Exception as ex:
+        out['batch_error'] = '%s: %s' % (type(ex).__name__, ex)
+    # (ii) an object that was USED before being deformed must answer like a fresh one
+    if rec['deformation']:
+        import panqec.codes as pc
+        c2 = getattr(pc, rec['cls'])(*rec['size'])
+        z = np.zeros(2 * n, dtype='uint8')
+        c2.logical_errors(z), c2.is_success(z), c2.in_codespace(z), c2.is_logical_error(z)
+        c2.deform(rec['deformation'], **({'deformation_axis': rec['axis']} if rec['axis'] else {}))
+        diffs = []
+        for o in out['cases']:
+            o2 = observe(c2, vec(n, o['x'], o['z']))
+            if o2 != o:
+                diffs.append({'fresh': o, 'used_then_deformed': o2})
+                break
+        out['used_diff'] = diffs
     nb = 0
     if n <= brute_n:
         # every Pauli operator on the code: sets of operators reported in the code space / successful
